@@ -1,10 +1,6 @@
 INIT Init
 NEXT Next
 CONSTANTS
-  ColRule = "bus_minus_norefs"
-  ShiftRule = "all_trafos"
-  Ls2gInstalled = TRUE
-  NumbaInstalled = TRUE
   Topos = {"radial", "loop1", "loop2"}
   SlackKinds = {"ext_grid", "gen"}
   SlackPos = {0, 1}
@@ -12,6 +8,8 @@ CONSTANTS
   XSs = {FALSE, TRUE}
   TrafoKinds = {"none", "t150"}
   Loads = {"moderate"}
+  PVsA = {FALSE}
+  TrafoKindsA = {"none"}
   Topos2 = {"radial", "loop1", "loop2"}
   SlackKinds2 = {"ext_grid", "gen"}
   SlackPos2 = {0}
